@@ -579,8 +579,162 @@ def PyObject_Free(ex, o):
     return None
 
 
+SSIZE_MAX = (1 << 63) - 1
+
+
+def _slice_index(ex, o):
+    """_PyEval_SliceIndex: None is handled by the caller; ints are clamped to Py_ssize_t;
+    returns None (with TypeError pending) for non-index objects"""
+    i = py(ex).info(o)
+    if i['kind'] != 'int':
+        _typeerror(ex, 'slice indices must be integers or None')
+        return None
+    V = i['V']
+    if ex.decide(V_fits_s64(V)):
+        return V_low64(V)
+    if ex.decide(V < 0):
+        return 1 << 63
+    return SSIZE_MAX
+
+
+def PySlice_Unpack(ex, sl, pstart, pstop, pstep):
+    """CPython's PySlice_Unpack: step None -> 1, step 0 -> ValueError; start/stop None -> the
+    extreme for the step's sign; ints clamped to Py_ssize_t."""
+    mem = ex.mem
+    none = ex.gaddr('_Py_NoneStruct')
+    sl = simp(sl)
+    start, stop, step = [simp(mem.load(sl + off, 8)) for off in (16, 24, 32)]
+    if step == none:
+        st = 1
+    else:
+        st = _slice_index(ex, step)
+        if st is None:
+            return mask(32)
+        if ex.decide(llsym.eq(st, 0, 64)):
+            p = py(ex)
+            p.exc = 'PyExc_ValueError'
+            p.exc_log.append((p.exc, 'slice step cannot be zero'))
+            return mask(32)
+        if ex.decide(llsym.slt(st, (-SSIZE_MAX) & mask(64), 64)):
+            st = (-SSIZE_MAX) & mask(64)
+    neg = ex.decide(llsym.slt(st, 0, 64))
+    if start == none:
+        a = SSIZE_MAX if neg else 0
+    else:
+        a = _slice_index(ex, start)
+        if a is None:
+            return mask(32)
+    if stop == none:
+        b = (1 << 63) if neg else SSIZE_MAX
+    else:
+        b = _slice_index(ex, stop)
+        if b is None:
+            return mask(32)
+    mem.store(pstart, a, 8)
+    mem.store(pstop, b, 8)
+    mem.store(pstep, st, 8)
+    return 0
+
+
+def PySlice_AdjustIndices(ex, length, pstart, pstop, step):
+    """CPython's PySlice_AdjustIndices (clamping of start/stop into [0,length] resp. [-1,length-1]);
+    returns the slice length.  Only step == 1 and concrete steps are modelled."""
+    mem = ex.mem
+    step = simp(step)
+    if not is_c(step):
+        step = ex.concretize(step, 64, 8, 'slice step')
+    sstep = llsym.signed(step, 64)
+    out = []
+    for pp in (pstart, pstop):
+        v = mem.load(pp, 8)
+        if ex.decide(llsym.slt(v, 0, 64)):
+            v = simp(bv(v, 64) + bv(length, 64))
+            if ex.decide(llsym.slt(v, 0, 64)):
+                v = mask(64) if sstep < 0 else 0
+        elif ex.decide(llsym.sle(length, v, 64)):
+            v = simp(bv(length, 64) - 1) if sstep < 0 else length
+        mem.store(pp, v, 8)
+        out.append(v)
+    a, b = out
+    if sstep < 0:
+        if ex.decide(llsym.slt(b, a, 64)):
+            return simp(z3.UDiv(bv(a, 64) - bv(b, 64) - 1, z3.BitVecVal(-sstep, 64)) + 1)
+    else:
+        if ex.decide(llsym.slt(a, b, 64)):
+            return simp(z3.UDiv(bv(b, 64) - bv(a, 64) - 1, z3.BitVecVal(sstep, 64)) + 1)
+    return 0
+
+
+def PyObject_GetBuffer(ex, o, view, flags):
+    """fills the Py_buffer from the harness-declared exporter info: objs[o]['buffer'] =
+    dict(buf, len, itemsize, readonly); objects without it raise TypeError (BufferError for
+    a writable request on a read-only exporter)"""
+    p = py(ex)
+    i = p.info(o)
+    b = i.get('buffer')
+    if b is None and i['kind'] == 'bytes':
+        b = {'buf': simp(o) + 32, 'len': len(i['data']), 'itemsize': 1, 'readonly': 1}
+    if b is None:
+        _typeerror(ex, 'a bytes-like object is required')
+        return mask(32)
+    flags = simp(flags)
+    if is_c(flags) and (flags & 1) and b.get('readonly'):
+        p.exc = 'PyExc_BufferError'
+        p.exc_log.append((p.exc, 'Object is not writable'))
+        return mask(32)
+    mem = ex.mem
+    view = simp(view)
+    # struct Py_buffer { buf, obj, len, itemsize, readonly(int), ndim(int), format, shape, strides, suboffsets, internal }
+    mem.store(view + 0, b['buf'], 8)
+    mem.store(view + 8, o, 8)
+    mem.store(view + 16, b['len'], 8)
+    mem.store(view + 24, b.get('itemsize', 1), 8)
+    mem.store(view + 32, b.get('readonly', 0), 4)
+    mem.store(view + 36, 1, 4)
+    for off in (40, 48, 56, 64, 72):
+        mem.store(view + off, 0, 8)
+    i['exports'] = i.get('exports', 0) + 1
+    p.created.append(('PyObject_GetBuffer', simp(o), view))
+    return 0
+
+
+def PyBuffer_IsContiguous(ex, view, order):
+    return 1
+
+
+def PyBuffer_Release(ex, view):
+    """decrements the exporter's export count (view->obj may be NULL: no-op)"""
+    p = py(ex)
+    view = simp(view)
+    o = simp(ex.mem.load(view + 8, 8))
+    if is_c(o) and o != 0:
+        i = p.objs.get(o)
+        if i is not None:
+            i['exports'] = i.get('exports', 0) - 1
+            i['released'] = i.get('released', 0) + 1
+        ex.mem.store(view + 8, 0, 8)
+    p.created.append(('PyBuffer_Release', view, o))
+    return None
+
+
+def _PyObject_GC_New(ex, tp):
+    return _PyObject_New(ex, tp)
+
+
+def PyObject_GC_Track(ex, o):
+    return None
+
+
+def PyObject_GC_UnTrack(ex, o):
+    return None
+
+
 DEFAULT = {
     '@*': extern_global,
+    'PySlice_Unpack': PySlice_Unpack, 'PySlice_AdjustIndices': PySlice_AdjustIndices,
+    'PyObject_GetBuffer': PyObject_GetBuffer, 'PyBuffer_IsContiguous': PyBuffer_IsContiguous,
+    'PyBuffer_Release': PyBuffer_Release, '_PyObject_GC_New': _PyObject_GC_New,
+    'PyObject_GC_Track': PyObject_GC_Track, 'PyObject_GC_UnTrack': PyObject_GC_UnTrack,
     '_PyObject_New': _PyObject_New, 'PyObject_Malloc': PyObject_Malloc, 'PyObject_Init': PyObject_Init,
     'PyObject_Free': PyObject_Free,
     'PyErr_Occurred': PyErr_Occurred, 'PyErr_Clear': PyErr_Clear, 'PyErr_SetString': PyErr_SetString,
